@@ -40,6 +40,39 @@ def _subst_params(s, args):
     return _re.sub(r"\$(\d+)((?:\.\w+)*)", lambda m: (args[int(m.group(1))] if int(m.group(1)) < len(args) else "$" + m.group(1)) + m.group(2), s)
 
 
+def structural_names(body):
+    """lid -> name derived from how the local is defined, not from what the source calls it:
+    parameters `$i`, lets `@<head of the initialiser><position in the pattern>` (`@mut:` if reassigned), duplicates
+    numbered in source order.  A consistent renaming of locals leaves these names unchanged."""
+    cn = Canon(body, inline=False)
+    binds = []
+
+    def rec(n):
+        if isinstance(n, dict):
+            if n.get("k") == "Bind" and "lid" in n:
+                binds.append(n)
+            for v in n.values():
+                rec(v)
+        elif isinstance(n, list):
+            for v in n:
+                rec(v)
+    rec(body.get("params"))
+    rec(body.get("body"))
+    binds.sort(key=lambda b: (b.get("sp") or [0])[0])
+    out = {}
+    k = 0
+    for b in binds:
+        if b.get("name") == "self":
+            out[b["lid"]] = "self"
+            continue
+        if b["lid"] in cn.defs:
+            out[b["lid"]] = cn.local({"k": "Local", "lid": b["lid"], "name": "?"}, cn.max_depth)
+        else:
+            out[b["lid"]] = "@uninit#%d" % k
+            k += 1
+    return out
+
+
 def peel(n):
     """Strip blocks with a single tail expression, casts to the same type are kept."""
     while n is not None and n.get("k") == "Block" and not n["stmts"] and n.get("expr") is not None:
